@@ -853,6 +853,28 @@ def gen_family(rng, force=(), forbid=(), n_masters=None, max_glyphs=14, p_sparse
             cand = [n for n, _, r in roster if r in ("base", "alt") and n not in prot]
             if cand:
                 dslib["public.skipExportGlyphs"] = [rng.choice(cand)]
+    if axes and n_masters in (1, 2) and "discrete_axis" not in forbid and (
+            "discrete_axis" in force or rng.random() < 0.07):
+        # a discrete (non-interpolating) axis: the document splits into one interpolable
+        # sub-space per value (compileVariable*s builds one font per sub-space; the
+        # singular functions and the Instantiator refuse such a document)
+        on.add("discrete_axis")
+        axes.append({"name": "Italic", "tag": "ital", "discrete": [0, 1], "default": 0})
+        for m in masters:
+            m["location"]["Italic"] = 0
+        for sp in sparse:
+            sp["location"]["Italic"] = 0
+        for k, m in enumerate(list(masters)):
+            mk = _perturb_master(rng, m, 1, on, spec)
+            mk["name"] = "master_i%d" % k
+            mk["info"]["styleName"] = m["info"].get("styleName", "Regular") + " Italic"
+            mk["location"] = dict(m["location"], Italic=1)
+            masters.append(mk)
+        for inst in instances:
+            inst["user"]["Italic"] = rng.choice([0, 1])
+        for vf in variable_fonts:
+            vf["axes"] = [a for a in vf["axes"] if a != "Italic"]
+            vf["values"] = {"Italic": rng.choice([0, 1])}
     source_order = None
     nsrc = len(masters) + len(sparse)
     if nsrc >= 2 and rng.random() < 0.35:
